@@ -10,34 +10,58 @@ def err (msg : String) : Sx := .list [.atom "driver-error", .atom msg]
 def renderObj (q : Obj) : Sx :=
   .list ((indices q.shape).map fun i => if q.mask.bit i then Sx.atom "m" else Sx.ofInt (q.vals i))
 
-def parseStep (t : Nat) : Sx → Option (List Entry × Rhs)
-  | .list [ents, rsh, rm] => do
+/-- `(key base mask)`: a derivative, tagged `base + <main tag>` -/
+def parseDerivs (shape : Shape) (tag : Index → Int) (x : Sx) : Option (List (String × Obj)) := do
+  let l ← x.toList?
+  l.mapM fun d => match d with
+    | .list [.atom key, base, m] => do
+      let base ← base.toInt?
+      let m ← parseMask shape m
+      some (key, (⟨shape, fun i => tag i + base, m⟩ : Obj))
+    | _ => none
+
+def objToRhs (o : Obj) : Rhs := ⟨o.shape, o.vals, o.mask⟩
+
+def parseStep (t : Nat) : Sx → Option (List Entry × RhsD)
+  | .list [ents, rsh, rm, ds] => do
     let es ← parseEntries ents
     let rshape ← rsh.nats?
     let m ← parseMask rshape rm
-    some (es, ⟨rshape, fun i => Int.ofNat (1000 * (t + 1) + ravel rshape i), m⟩)
+    let tag : Index → Int := fun i => Int.ofNat (1000 * (t + 1) + ravel rshape i)
+    let derivs ← parseDerivs rshape tag ds
+    some (es, ⟨⟨rshape, tag, m⟩, derivs.map fun kd => (kd.1, objToRhs kd.2)⟩)
   | _ => none
 
-def runSteps : Obj → List (List Entry × Rhs) → List Sx
+def insertSorted (kd : String × Obj) : List (String × Obj) → List (String × Obj)
+  | [] => [kd]
+  | x :: r => if kd.1 < x.1 then kd :: x :: r else x :: insertSorted kd r
+
+def sortDerivs (l : List (String × Obj)) : List (String × Obj) := l.foldr insertSorted []
+
+def renderObjD (q : ObjD) : Sx :=
+  .list [renderObj q.main, .list ((sortDerivs q.derivs).map fun kd => .list [.atom kd.1, renderObj kd.2])]
+
+def runSteps : ObjD → List (List Entry × RhsD) → List Sx
   | _, [] => []
   | q, a :: as =>
-    match setitem q a.1 a.2 with
-    | .ok q' => renderObj q' :: runSteps q' as
+    match setitemD q a.1 a.2 with
+    | .ok q' => renderObjD q' :: runSteps q' as
     | .indexError => .atom "IndexError" :: runSteps q as
     | .valueError => .atom "ValueError" :: runSteps q as
 
 def handle : List Sx → Sx
-  | [.atom "set", sh, m, steps] =>
+  | [.atom "set", sh, m, ds, steps] =>
     match sh.nats? with
     | some shape =>
-      match parseMask shape m, steps.toList? with
-      | some mask, some ss =>
+      let tag : Index → Int := fun i => Int.ofNat (ravel shape i + 1)
+      match parseMask shape m, parseDerivs shape tag ds, steps.toList? with
+      | some mask, some derivs, some ss =>
         match (ss.zipIdx.map fun (s, t) => parseStep t s).mapM id with
         | some as =>
-          let q : Obj := ⟨shape, fun i => Int.ofNat (ravel shape i + 1), mask⟩
-          .list (renderObj q :: runSteps q as)
+          let q : ObjD := ⟨⟨shape, tag, mask⟩, derivs⟩
+          .list (renderObjD q :: runSteps q as)
         | none => err "step"
-      | _, _ => err "operand"
+      | _, _, _ => err "operand"
     | none => err "shape"
   | _ => err "c10-op"
 
